@@ -581,6 +581,7 @@ func c13Draw(t *sim.Tape, o c13GenOpts) *c13Case {
 		cs.CancelAt = t.Choose(8)
 	}
 	cs.Consume = t.Choose(2)
+	cs.ACOverwrite = t.Chance(1, 3)
 	cs.Composite = t.Chance(1, 6)
 	return cs
 }
